@@ -203,6 +203,8 @@ def correspondence(ctx):
         impls.append(s.final_impl)
         meta.append((i, s.cfg_text, desc, s.hits))
         c.count("config:" + s.cfg_text)
+        c.count("other-connection:" + s.second_desc.split(", config")[0].replace("other connection: ", "")
+                + (", own config" if "default" not in s.second_desc.split("config ")[-1][:8] else ", default config"))
         if time.time() - t0 > ctx.budget(70, 700):
             c.count("stopped-early-at-session", i)
             break
@@ -231,13 +233,13 @@ def correspondence(ctx):
             c.count("model:not-modelled-or-diverged")
         lured = [m for m in hits.get("new_modules", []) if m in hw.CANARY_MODULES or m.split(".")[0] in hw.LURE_MODULES]
         if cfg == "default" and (hits["imported"] or hits["imports"] or hits["pickle"] or hits["denied_attr"]
-                                 or hits["denied_call"] or hits["keys"] or lured):
+                                 or hits["denied_call"] or hits["keys"] or lured or hits["state_writes"]):
             # the canaries are independent of the recorder: under the default configuration none may ever be hit
             c.disagreements.append(dict(
                 case=dict(kind="history", seed=ctx.seed, index=i, config=cfg, sent=desc), first_difference=-1,
-                impl=("canaries hit: imported=%r import-calls=%r pickle=%r denied-attr=%r denied-call=%r keys=%r modules=%r" % (
-                    hits["imported"][:2], hits["imports"][:2], hits["pickle"][:2], hits["denied_attr"][:2],
-                    hits["denied_call"][:2], hits["keys"][:2], lured[:3]))[:400],
+                impl=("canaries hit: imported=%r import-calls=%r pickle=%r denied-attr=%r denied-call=%r keys=%r modules=%r "
+                      "state-writes=%r" % (hits["imported"][:2], hits["imports"][:2], hits["pickle"][:2], hits["denied_attr"][:2],
+                                           hits["denied_call"][:2], hits["keys"][:2], lured[:3], hits["state_writes"][:2]))[:400],
                 model="the model has no such touch under the default configuration (no_import / no_pickle / touch_policy)"))
         elif g != want:
             we, ge = want.split(" | ")[0].split(" ; "), g.split(" | ")[0].split(" ; ")
@@ -358,9 +360,16 @@ def oracle_session(seed, index, n_bursts=None):
     old = signal.signal(signal.SIGALRM, _alarm)
     rt.GUARD_DECREF = False
     phase = r.choice(["holding", "holding", "released", "closed"])
+    second_cfg = r.choice(hw.SECOND_CONFIGS)
+    second_first = r.chance(1, 2)
     named = set()                  # module names (every dotted prefix) the peer put into messages
+    sess = None
     try:
-        with hw.Session(config={}, second_phase=phase) as s:
+        with hw.Session(config={}, second_phase=phase, second_cfg=second_cfg, second_first=second_first) as s:
+            sess = s
+            LAST_SENT.append([("other-connection", "%s; opened %s; config %r" % (
+                phase, "first" if second_first else "second",
+                dict((k, sorted(v) if isinstance(v, set) else v) for k, v in (second_cfg or {}).items())))])
             g = hw.Gen(r, s)
             boxed = []                 # every id the server ever boxed to this peer on this connection
             plan = [g.setup_burst] if r.chance(9, 10) else []
@@ -414,6 +423,7 @@ def oracle_session(seed, index, n_bursts=None):
                                         foreign = idp
                             refuse = _must_refuse(m)
                     before = (len(hw.HITS.keys_calls), len(hw.HITS.special))
+                    before_state = (len(hw.HITS.state_writes), s.svc.state, len(hw.HITS.denied_attr), len(hw.HITS.denied_call))
                     signal.alarm(WATCHDOG_S)
                     try:
                         got = s.burst(group)
@@ -438,6 +448,11 @@ def oracle_session(seed, index, n_bursts=None):
                             for idp in _harvest_all(f):
                                 if idp not in boxed:
                                     boxed.append(idp)
+                    after_state = (len(hw.HITS.state_writes), s.svc.state, len(hw.HITS.denied_attr), len(hw.HITS.denied_call))
+                    if after_state != before_state and len(problems) < 4:
+                        problems.append("after %s: state writes %r, service state %r, denied attributes %r, denied calls %r" % (
+                            repr(m)[:220], hw.HITS.state_writes[before_state[0]:][:3], s.svc.state,
+                            hw.HITS.denied_attr[before_state[2]:][:3], hw.HITS.denied_call[before_state[3]:][:3]))
                     if refuse and (len(hw.HITS.keys_calls), len(hw.HITS.special)) != before:
                         problems.append("%s made the protocol run %r on a held object: %s" % (
                             refuse, (hw.HITS.keys_calls[before[0]:] + hw.HITS.special[before[1]:])[:3], repr(m)[:200]))
@@ -469,6 +484,8 @@ def oracle_session(seed, index, n_bursts=None):
         rt.GUARD_DECREF = True
         signal.alarm(0)
         signal.signal(signal.SIGALRM, old)
+    if problems and sess is not None and getattr(sess, "default_changed", None):
+        problems.append("(opening the other connection changed the process-wide DEFAULT_CONFIG: %s)" % "; ".join(sess.default_changed)[:300])
     return "; ".join(problems) if problems else None
 
 
